@@ -443,15 +443,17 @@ func (e *Env) selectField(base cval, name string, x *Expr) cval {
 		return cval{"0", CT{Sort: "Int"}}
 	}
 	cur := base
-	for _, idx := range path {
+	for pi, idx := range path {
 		t := types.Unalias(cur.ct.T)
 		if pt, ok := t.Underlying().(*types.Pointer); ok {
 			st := pt.Elem().Underlying().(*types.Struct)
 			ft := st.Field(idx).Type()
 			addr := vc.fieldAddr(cur.t, pt.Elem(), idx)
-			// keep as "address" when more path follows through an embedded struct value
-			cur = cval{addr, CT{T: types.NewPointer(ft), Sort: "Ref"}}
-			// load
+			if _, isStruct := structOf(ft); isStruct && pi < len(path)-1 {
+				// more path follows through an embedded struct value: stay in address mode
+				cur = cval{addr, CT{T: types.NewPointer(ft), Sort: "Ref"}}
+				continue
+			}
 			cur = cval{vc.loadT(e.st, addr, ft), vc.ctOf(ft)}
 			continue
 		}
